@@ -866,7 +866,7 @@ func drawSiblings(t *rapid.T, c *valCase) {
 	n := rapid.SampledFrom([]int{0, 0, 1, 2, 3}).Draw(t, "nsiblings")
 	for i := 0; i < n; i++ {
 		ty, cs := drawLeaf(t, false)
-		if rapid.IntRange(0, 2).Draw(t, "samekind") == 0 && c.Field.Type.Kind != "array" && c.Field.Type.Kind != "map" {
+		if rapid.IntRange(0, 2).Draw(t, "samekind") != 2 && c.Field.Type.Kind != "array" && c.Field.Type.Kind != "map" {
 			// the same kind and format as the subject, with its own presence
 			ty = &j5sgen.Type{Kind: c.Field.Type.Kind, Format: c.Field.Type.Format, KeyPattern: c.Field.Type.KeyPattern, InlineEnum: c.Field.Type.InlineEnum, Ref: c.Field.Type.Ref}
 			cs = c.Cands
